@@ -12,6 +12,7 @@ model("Interrupt", module="usim._core.loop",
              "target": ANY,                         # the activity it is addressed to
              "due": REAL,                           # queue key under which it was scheduled
              "pos": INT},                           # index in sub._waiting while parked
+      ghost_defaults={"sub": None, "target": None},
       final=["token"])
 
 model("Loop", module="usim._core.loop",
@@ -59,7 +60,7 @@ SCHED_PARAMS = {"self": REF("Loop"), "target": ANY, "signal": OPT(REF("Interrupt
 contract("usim._core.loop.Loop.schedule",
          params=SCHED_PARAMS,
          asserts={1: "usage", 2: "usage", 3: "usage"},
-         requires=["self is loop",
+         requires=["self is loop", "target is not None",
                    "delay is None or at is None",
                    "delay is None or delay > 0",
                    "at is None or at > self.time"],
